@@ -50,6 +50,7 @@ OutputOps == {"next_u32", "next_u64", "fill_bytes", "generate", "jump", "long_ju
 SameCall(a, b) == /\ a.e = b.e
                   /\ (Has(a, "n") <=> Has(b, "n")) /\ (Has(a, "n") => a.n = b.n)
                   /\ (Has(a, "bytes") <=> Has(b, "bytes")) /\ (Has(a, "bytes") => a.bytes = b.bytes)
+                  /\ (Has(a, "kib") <=> Has(b, "kib")) /\ (Has(a, "kib") => a.kib = b.kib)
 Result(ev) == <<IF Has(ev, "ret") THEN ev.ret ELSE "none", IF Has(ev, "ok") THEN ev.ok ELSE "none",
                 IF Has(ev, "obs") THEN ev.obs ELSE "none", IF Has(ev, "digest") THEN ev.digest ELSE "none">>
 (* an output operation applied to g alone, or mirroring the previous event *)
